@@ -7,7 +7,7 @@ projections, asymmetric base instances and non-commutative operations, with call
 import itertools, json, os
 import vlib
 
-FILES = ["pure/eq/eq.go", "pure/ord/ord.go", "pure/monoid/monoid.go", "pure/semigroup/semigroup.go", "pure/types.go"]
+FILES = ["pure/eq", "pure/ord", "pure/monoid", "pure/semigroup", "pure/types.go"]  # a directory = all non-test files of the package
 MIN, MAX = -2 ** 63, 2 ** 63 - 1
 INTS = [MIN, MIN + 1, -2 ** 53, -2 ** 32, -2 ** 31 - 1, -2 ** 31, -256, -255, -10, -2, -1, 0, 1, 2, 9, 10, 11, 255, 256,
         2 ** 31 - 1, 2 ** 31, 2 ** 32, 2 ** 53, MAX - 1, MAX]
